@@ -3,6 +3,7 @@ from gens import cfg as G
 from models import cfg as M
 from sim.core import FAILED
 
+from props import scaled as SC
 ID = "C08"
 CASES = {"quick": 4000, "thorough": 20000}
 RULE = ("seeded grammars (<=4 variables, <=3 terminals, <=9 productions, bodies 0-4, profiles random / shared "
@@ -16,6 +17,9 @@ ASSUMPTIONS = ["variable and terminal symbol sets are disjoint (a grammar has V 
 
 
 def gen(rng, tier):
+    sc = SC.maybe(rng, ID)
+    if sc is not None:
+        return sc
     if tier == "thorough" and rng.chance(0.25):
         return G.gen_cfg(rng, max_vars=5, max_prods=10, max_body=5)      # larger shapes in the deep tier
     c = G.gen_cfg(rng)
@@ -26,6 +30,12 @@ def gen(rng, tier):
 
 
 def shrink(case):
+    if SC.is_scaled(case):
+        return iter(())
+    return _shrink(case)
+
+
+def _shrink(case):
     return G.shrink_cfg(case)
 
 
@@ -52,6 +62,8 @@ def probes(out, case, ref):
 
 
 def run(case, out):
+    if SC.is_scaled(case):
+        return SC.run(case, out)
     ref = G.ref_of(case)
     cfg = G.build(case)
     out.sig = G.signature(cfg)
